@@ -29,3 +29,7 @@ Proof. repeat split; reflexivity. Qed.
 
 Lemma bridge_hist : gen_hist_density = "density=self.bins_density"%string.
 Proof. reflexivity. Qed.
+
+(* '__hist_dim__' is a stack of the unmapped dimensions, or a length-one dimension when there is none *)
+Lemma bridge_hist_stack : gen_hist_stack = hist_dim_shape.
+Proof. reflexivity. Qed.
